@@ -2,7 +2,7 @@
    prod, sumbool, sumor map to OCaml's; N, Z, positive, nat, byte stay inductive.
    Compiled with the working directory set to /verif/ocaml (no Extraction Output Directory). *)
 From Coq Require Import ExtrOcamlBasic.
-From GV Require Import Base.Bytes Base.Utf8 Base.StrOps Helpers.Uuid Helpers.Email Helpers.Url Helpers.Alnum.
+From GV Require Import Base.Bytes Base.Utf8 Base.StrOps Helpers.Uuid Helpers.Email Helpers.Url Helpers.Alnum Misc.Migrate.
 
 Extraction "model.ml"
   all_bytes b2n
@@ -13,4 +13,5 @@ Extraction "model.ml"
   isValidDomainLabelChars isValidDomainChar IsValidEmail
   findSchemeEnd isValidSchemeChar hasInvalidChars validateSchemeWithoutHost validateSchemeWithHost
   isValidHostStart IsValidURL
-  IsValidAlpha IsNumeric.
+  IsValidAlpha IsNumeric
+  migrate_content migrate_count.
